@@ -488,22 +488,30 @@ def A_codec(name, level, **kw):
     return run
 
 
+def A_goenc(name, level, **kw):
+    def run(ctx):
+        run_A(ctx, 'MCGoEnc', name, {'EmitOn': 'TRUE', 'Level': level, 'MaxNest': 10000}, invariants=('WellFormedOut',), spec='GSpec', **kw)
+    return run
+
+
 PLANS.update({
     'C17': {
-        'quick': [A_words('w4', 4, 'full', extra_opt='wrap=0'), A_codec('enc', 2)],
-        'thorough': [A_words('w5', 5, 'full', extra_opt='wrap=0', timeout=9000), A_codec('enc', 3, timeout=9000)],
+        'quick': [A_words('w4', 4, 'full', extra_opt='wrap=0'), A_codec('enc', 2), A_goenc('go', 2)],
+        'thorough': [A_words('w5', 5, 'full', extra_opt='wrap=0', timeout=9000), A_codec('enc', 3, timeout=9000), A_goenc('go', 2)],
         'rule': 'words: for every word of the bounded language the codec\'s Compact, Indent (two prefix/indent pairs), HTMLEscape and '
                 'compact-with-escaping outputs must equal, byte for byte, the transducers of Scanner.tla (which TLC has checked to keep the '
                 'value); Unmarshal then Marshal/MarshalEscaped must reproduce the value read by the independent reader (numbers by literal); '
                 'UnmarshalWithKeys/UnmarshalValidWithKeys must report the member names in document order; values: for every universe value '
                 'and a set of awkward strings/numbers, decode(Enc(v)) re-encoded must equal Enc(SortKeys(v), esc) for both settings, also '
-                'through Encoder; on the same inputs the results are compared with encoding/json (b/f escapes normalised, Number kept) - '
+                'through Encoder and as multi-value Decoder streams with short reads; Go values: every value of MCGoEnc (structs with tags built by '
+                'reflect.StructOf) must be written exactly as GoMarshal(v, esc); on the same inputs the results are compared with encoding/json (b/f escapes normalised, Number kept) - '
                 'that last comparison is differential and is labelled std-diff; distinct_nontrivial counts words + values',
         'exhaustive': True,
-        'assumptions': TEXT_ASSUME + ['struct types with tags, embedding and the Decoder/Encoder token stream are NOT modelled by the '
-                                      'specification: for them C17 is covered only by the differential comparison with encoding/json in the '
-                                      'C17 struct stage (see DESIGN.md section 8)'],
-        'required_labels': {t: ['Word_invalid', 'Word_valid_obj', 'Word_valid_str', 'Enc_obj', 'Enc_str', 'Enc_num', 'StreamDecoded'] for t in ('quick', 'thorough')},
+        'assumptions': TEXT_ASSUME + ['Go values are the 837 of spec/MCGoEnc.tla (GoEnc.tla states the encoding rules); decoding INTO typed values '
+                                      'and the token API of Decoder are NOT modelled by the specification: they are covered only by the '
+                                      'differential comparison with encoding/json (kind std-diff), see DESIGN.md section 11.2'],
+        'required_labels': {t: ['Word_invalid', 'Word_valid_obj', 'Word_valid_str', 'Enc_obj', 'Enc_str', 'Enc_num', 'StreamDecoded', 'GoEnc_struct', 'GoEnc_map', 'GoEnc_ptr', 'GoEnc_bytes']
+                            for t in ('quick', 'thorough')},
     },
 })
 
